@@ -430,6 +430,12 @@ func splitPeriod(mpd *m.MPD, a *asset, cfg *ResponseConfig, wTimes wrapTimes) er
 	}
 	startPeriodNr := wTimes.startTimeMS / (periodDur * 1000)
 	endPeriodNr := wTimes.nowMS / (periodDur * 1000)
+	lastStartedPeriodNr := endPeriodNr
+	if ato := cfg.getAvailabilityTimeOffsetS(); ato > 0 && !math.IsInf(ato, 0) && cfg.liveMPDType() != segmentNumber {
+		// With an availabilityTimeOffset the timeline lists segments that start after now: they may
+		// belong to the next period, which is added if it gets any of them.
+		endPeriodNr = (wTimes.nowMS + int(ato*1000)) / (periodDur * 1000)
+	}
 	inPeriod := mpd.Periods[0]
 	nrPeriods := endPeriodNr - startPeriodNr + 1
 	periods := make([]*m.Period, 0, nrPeriods)
@@ -443,6 +449,7 @@ func splitPeriod(mpd *m.MPD, a *asset, cfg *ResponseConfig, wTimes wrapTimes) er
 			pStartS = 0 // the stream starts inside this period
 		}
 		p.Start = m.Seconds2DurPtr(pStartS)
+		nrListed := 0
 		for aNr, as := range p.AdaptationSets {
 			inAS := inPeriod.AdaptationSets[aNr]
 			timeScale := int(as.SegmentTemplate.GetTimescale())
@@ -462,12 +469,14 @@ func splitPeriod(mpd *m.MPD, a *asset, cfg *ResponseConfig, wTimes wrapTimes) er
 				inS := inAS.SegmentTemplate.SegmentTimeline.S
 				periodStart, periodEnd := uint64(pStartS), uint64(pEndS)
 				as.SegmentTemplate.SegmentTimeline.S, _ = reduceS(inS, nil, timeScale, periodStart, periodEnd)
+				nrListed += len(as.SegmentTemplate.SegmentTimeline.S)
 			case timeLineNumber:
 				as.SegmentTemplate.PresentationTimeOffset = pto
 				inS := inAS.SegmentTemplate.SegmentTimeline.S
 				startNr := inAS.SegmentTemplate.StartNumber
 				periodStart, periodEnd := uint64(pStartS), uint64(pEndS)
 				as.SegmentTemplate.SegmentTimeline.S, as.SegmentTemplate.StartNumber = reduceS(inS, startNr, timeScale, periodStart, periodEnd)
+				nrListed += len(as.SegmentTemplate.SegmentTimeline.S)
 			default:
 				return fmt.Errorf("unknown mpd type")
 			}
@@ -478,6 +487,9 @@ func splitPeriod(mpd *m.MPD, a *asset, cfg *ResponseConfig, wTimes wrapTimes) er
 				}
 				as.SupplementalProperties = append(as.SupplementalProperties, &periodContinuity)
 			}
+		}
+		if pNr > lastStartedPeriodNr && nrListed == 0 {
+			continue // a period that has not started and has no segment yet
 		}
 		periods = append(periods, p)
 	}
